@@ -318,8 +318,18 @@ void oracle_c09_failover(World &w, const History &h)
     if (t.q.ok) ntx[t.q.id]++;
   int nsrv = w.cfg->nservers;
   std::map<unsigned, int> prev_tx; // qid -> previous tx index
+  struct RotSeen {
+    std::vector<int> cand;
+    int              res, server, tx;
+  };
+  std::vector<RotSeen> rot_seen;
+  int                  last_rot_draws = 0;
   for (auto &t : w.txs) {
     if (!t.q.ok || t.server < 0 || t.server >= 8) continue;
+    struct Upd {
+      int &dst, v;
+      ~Upd() { dst = v; }
+    } upd{ last_rot_draws, t.rot_draws };
     bool is_user = user_q.count(t.q.id) > 0;
     int  best = 1 << 30;
     // the configured list (and its order) at the moment the destination was decided: server-list edits in flight
@@ -356,8 +366,27 @@ void oracle_c09_failover(World &w, const History &h)
             if (t.ref_fail[t.order[i]] == best) first_best = t.order[i];
           if (t.server != first_best)
             w.violate("C09:selection:not-first-in-configuration-order", fmt("tx#%d went to server %d but server %d is the first with the fewest failures (%d) and rotation is off", t.id, t.server, first_best, best));
-        } else
+        } else {
           w.W("c09_rotate_choice");
+          // "a random one among them": with two or more best servers the library must consult its random source for
+          // this choice, and two choices among the same candidates made with different random values must differ
+          std::vector<int> cand;
+          for (int i = 0; i < t.norder; i++)
+            if (t.ref_fail[t.order[i]] == best) cand.push_back(t.order[i]);
+          if (cand.size() >= 2 && !t.tcp && !servers_changed) {
+            if (t.rot_draws == last_rot_draws)
+              w.violate("C09:rotation:no-random-draw", fmt("tx#%d chose among %zu equally good servers without consulting the random source (rotation is on)", t.id, cand.size()));
+            else {
+              w.W("c09_rotate_draw_consulted");
+              int res = t.rot_last % (int)cand.size();
+              for (auto &pr : rot_seen)
+                if (pr.cand == cand && pr.res != res && pr.server == t.server)
+                  w.violate("C09:rotation:choice-independent-of-random-value",
+                            fmt("tx#%d and tx#%d chose server %d among the same %zu equally good servers although their random values differ (%d vs %d modulo %zu)", pr.tx, t.id, t.server, cand.size(), pr.res, res, cand.size()));
+              rot_seen.push_back({ cand, res, t.server, t.id });
+            }
+          }
+        }
         w.W("c09_selection_checked");
         if (t.server != 0) w.W("c09_failed_over");
       }
